@@ -147,7 +147,10 @@ def gen_value(hint, rng, depth=0):
     raise Skip(hint)
 
 
-def gen_model_dict(cls, rng, depth=0, p_optional=0.5):
+_POPT = [0.5]  # probability of filling in an optional field (lowered by instances() while candidates keep being rejected)
+
+
+def gen_model_dict(cls, rng, depth=0, p_optional=None):
     """Candidate dict for a pydantic model: required fields + some optional ones (missing = omitted)."""
     try:
         hints = typing.get_type_hints(cls, include_extras=True)
@@ -155,6 +158,8 @@ def gen_model_dict(cls, rng, depth=0, p_optional=0.5):
         hints = {}
     consts = getattr(cls, "__constants__", {}) or {}
     out = {}
+    if p_optional is None:
+        p_optional = _POPT[0]
     for name, f in cls.__fields__.items():
         if name in consts:
             continue
@@ -302,11 +307,20 @@ def instances(cls, rng, n, stats=None):
     """Yield up to n valid instances (validated by constructing the model)."""
     tries = 0
     got = 0
+    streak = 0  # rejections since the last accepted candidate
     while got < n and tries < n * 6:
         tries += 1
+        streak += 1
         try:
-            d = gen_model_dict(cls, rng)
+            # classes with many optional fields of demanding types: when candidates keep being rejected, fewer optional fields are
+            # filled in (down to almost none) so that every class gets instances
+            _POPT[0] = 0.5 if streak < 8 else (0.25 if streak < 20 else 0.08)
+            try:
+                d = gen_model_dict(cls, rng)
+            finally:
+                _POPT[0] = 0.5
             obj = cls.parse_obj(d)
+            streak = 0
         except Skip:
             if stats is not None:
                 stats["skip"] = stats.get("skip", 0) + 1
